@@ -236,14 +236,18 @@ def gen_leaf(rng, d, kinds=None, ls_range=(0.1, 100.0), ad_forms=None):
 
 
 def gen_cov(rng, d, depth, kinds=None, ls_range=(0.1, 100.0), ad_forms=None, pow_range=(0.1, 10.0),
-            allow_linear_in_pow=False):
-    """Random kernel expression of the given depth for inputs of width d."""
+            allow_linear_in_pow=False, nat_pow_prob=0.0):
+    """Random kernel expression of the given depth for inputs of width d.
+
+    nat_pow_prob (default 0: behaviour and random stream unchanged): probability that a power node gets a
+    natural-number exponent (1..4) over a base of ANY sign (Linear leaves allowed) instead of a real exponent from
+    pow_range over a positive base."""
     if depth == 0:
         return gen_leaf(rng, d, kinds, ls_range, ad_forms)
     op = ["ADD", "ADDC", "MUL", "MULC", "POW"][rng.integers(5)]
     ad = gen_ad(rng, d, forms=ad_forms)
     w = len(ad_indices(ad, d))
-    sub = lambda dep, kk=kinds: gen_cov(rng, w, dep, kk, ls_range, ad_forms, pow_range)
+    sub = lambda dep, kk=kinds: gen_cov(rng, w, dep, kk, ls_range, ad_forms, pow_range, nat_pow_prob=nat_pow_prob)
     if op in ("ADD", "MUL"):
         dl = depth - 1
         dr = int(rng.integers(0, depth))
@@ -252,11 +256,14 @@ def gen_cov(rng, d, depth, kinds=None, ls_range=(0.1, 100.0), ad_forms=None, pow
         return (op, sub(dl), sub(dr), ad)
     if op in ("ADDC", "MULC"):
         return (op, sub(depth - 1), loguniform(rng, 0.01, 10.0), ad)
+    if nat_pow_prob > 0 and rng.random() < nat_pow_prob:
+        # natural-number power: defined and smooth for a base value of any sign
+        return ("POW", sub(depth - 1), float(rng.integers(1, 5)), ad)
     # power: base must be positive for non-integer powers -> stationary kernels only
     kk = [k for k in (kinds or LEAVES) if k != "LIN"] or STATIONARY
-    base = gen_cov(rng, w, depth - 1, kk, ls_range, ad_forms, pow_range)
+    base = gen_cov(rng, w, depth - 1, kk, ls_range, ad_forms, pow_range, nat_pow_prob=nat_pow_prob)
     while not cov_positive(base):
-        base = gen_cov(rng, w, depth - 1, kk, ls_range, ad_forms, pow_range)
+        base = gen_cov(rng, w, depth - 1, kk, ls_range, ad_forms, pow_range, nat_pow_prob=nat_pow_prob)
     return ("POW", base, loguniform(rng, *pow_range), ad)
 
 
